@@ -217,6 +217,9 @@ func newLikeIndexCmp(filterValue string, isLike bool, isCaseInsensitive bool) (*
 		isLike:            isLike,
 		isCaseInsensitive: isCaseInsensitive,
 	}
+	if isCaseInsensitive {
+		filterValue = strings.ToLower(filterValue)
+	}
 	if len(filterValue) >= 2 {
 		if filterValue[0] == '%' {
 			matcher.hasPrefix = true
@@ -230,11 +233,7 @@ func newLikeIndexCmp(filterValue string, isLike bool, isCaseInsensitive bool) (*
 			matcher.startAndEnd = strings.Split(filterValue, "%")
 		}
 	}
-	if isCaseInsensitive {
-		matcher.value = strings.ToLower(filterValue)
-	} else {
-		matcher.value = filterValue
-	}
+	matcher.value = filterValue
 
 	return matcher, nil
 }
